@@ -218,7 +218,10 @@ fn common_ops<B: VhostBackend + VhostKernBackend>(ctx: &mut Ctx, b: &B, mem: &Gu
             let _ = b.set_vring_base(q, n);
             ctx.check("set_vring_base", json!({"q": q, "base": n}), ioctl_capture::take(), Some(("VHOST_SET_VRING_BASE", Some(vring_state(q as u32, n as u32)))));
         }
-        for &wb in l32.iter().take(10) {
+        // kernel write-back values: the whole 32-bit lattice plus packed-ring encodings (last used
+        // index and wrap counters in bits 16..31), which must come back unmodified
+        let wbs: Vec<u32> = l32.iter().copied().chain([0x1_0000, 0x8001_8005, 0xffff_0000, 0x7fff_ffff, 0x8000_0000, 0xffff_ffff]).collect();
+        for &wb in &wbs {
             answer_bytes(&vring_state(q as u32, wb));
             let r = b.get_vring_base(q);
             ctx.check("get_vring_base", json!({"q": q, "kernel_num": wb}), ioctl_capture::take(), Some(("VHOST_GET_VRING_BASE", Some(vring_state(q as u32, 0)))));
